@@ -14,6 +14,8 @@ import Momo.Extracted
   (c) pointer level: the `prev`/`next` fields as a heap, with `pvMoveBufferToHead`, the unlinking of
       `pvDeleteBuffer`, the linking of `pvNewBlock` and the two loops of `MergeFrom` as written.
       `Momo/Proof/PoolDll.lean` proves that they implement the list operations used in (b).
+  Proofs: PoolLayout / PoolGeometry (a), PoolState / PoolOps / PoolCache / PoolBulk / PoolIf / PoolHist /
+  PoolSingle (b), PoolDll (c); property theorems in `Momo/Props/C09.lean`.
   Core Lean only (no Mathlib): this file is linked into the driver.
 -/
 namespace Momo.Pool
